@@ -69,8 +69,19 @@ def reader_helpers(src):
     return names
 
 
+def unfold_usize_from(text):
+    """`usize::from(E)` (E: u8) is `E as usize`"""
+    while True:
+        i = text.find('usize::from(')
+        if i < 0:
+            return text
+        j = match_close(text, i + len('usize::from'))
+        text = text[:i] + text[i + len('usize::from('):j] + ' as usize' + text[j + 1:]
+
+
 def canon(text, readers):
     """canonical form of normalised Rust text: reader helpers expanded, redundant parentheses around a byte read dropped"""
+    text = unfold_usize_from(text)
     for n in readers:
         text = re.sub(r'\b' + n + r'\(iterator, ""\)', READ, text)
     text = re.sub(r'(?<![\w!>])\(' + re.escape(READ) + r'\)', READ, text)
@@ -263,6 +274,9 @@ def v(name):
 
 class Tr:
     """expression / statement translation with the threaded state variables bs stk mem cl"""
+    src = ''
+    readers = []
+    inlining = set()
 
     def __init__(self):
         self.fresh = 0
@@ -480,6 +494,42 @@ class Tr:
             return f'match gen_instantiate_in_place {x} v_ids v_plugs with Some {x} => {rest()} | None => {NONE} end'
         if self.is_panic(s):
             return NONE
+        # a private helper of lib.rs called as a statement (`h(args)`, `let x = h(args)`, `let (a, b) = h(args)`): expanded at the call site
+        hm = re.fullmatch(r'(?:let (\(?[\w, ]+\)?) = )?(\w+)\(([^()]*)\)', s)
+        if hm and re.search(r'\nfn ' + hm.group(2) + r'\(', Tr.src) and hm.group(2) not in HELPERS and hm.group(2) not in Tr.inlining:
+            targets, h, args = hm.groups()
+            ht = canon(norm(find_fn(Tr.src, h)), Tr.readers)
+            sig = re.fullmatch(r'fn ' + h + r'(?:<\'a>)?\((.*?)\)(?: -> [^{]*)? \{ (.*) \}', ht)
+            if not sig:
+                fail('helper ' + h + ': unexpected shape')
+            pars = [x.split(':')[0].replace('mut ', '').strip() for x in split_top(sig.group(1))]
+            argv = [a.strip().replace('&mut ', '').lstrip('&') for a in split_top(args)]
+            if len(pars) != len(argv):
+                fail('helper ' + h + ': arity')
+            body = sig.group(2)
+            for par, a in zip(pars, argv):
+                if par != a:
+                    if not re.fullmatch(r'\w+', a):
+                        fail('helper ' + h + ': argument is not a name: ' + a)
+                    body = re.sub(r'\b' + par + r'\b', a, body)
+            body = body.replace('match *phase', 'match phase')
+            hs = split_stmts(body)
+            last = hs[-1].strip().rstrip(';').strip()
+            if last.startswith('return '):
+                last = last[len('return '):]
+            if any(re.search(r'\breturn\b', x) for x in hs[:-1]):
+                fail('helper ' + h + ' returns early')
+            if targets:
+                tl = [t.strip() for t in targets.strip('()').split(',')]
+                vals = split_top(last[1:-1]) if (last.startswith('(') and match_close(last, 0) == len(last) - 1 and len(tl) > 1) else [last]
+                if len(vals) != len(tl):
+                    fail('helper ' + h + ': result does not match the targets')
+                hs = hs[:-1] + [f'let {t} = {e}' for t, e in zip(tl, vals)]
+            Tr.inlining.add(h)
+            try:
+                return self.block(hs, rest)
+            finally:
+                Tr.inlining.discard(h)
         # matches
         m = re.fullmatch(r'match (.*?) \{ (.*) \}', s)
         if m and match_close(s, s.index('{', len('match ' + m.group(1)))) == len(s) - 1:
@@ -694,6 +744,7 @@ def generate(repo):
     check_conversions(strip_strings(src))
     check_from_impls(strip_strings(src))
     readers = reader_helpers(src)
+    Tr.src, Tr.readers = strip_strings(src), readers
     for name, want in HELPERS.items():
         got = canon_helper(canon(norm(find_fn(src, name)), readers))
         got = re.sub(r'\{ id: (\w+), e_fresh', r'{ id, e_fresh', got) if False else got
